@@ -41,7 +41,10 @@ def escapes_in_context():
 
 UNQ_TOKENS = ["%41", "%2F", "%2f", "%25", "%2B", "%26", "%3D", "%3B", "%20", "%C3", "%A9", "%c3%a9", "%E2", "%82",
               "%AC", "%F0", "%9F", "%98", "%80", "%ED", "%A0", "%E0", "%C0", "%F4", "%90", "%F5", "%FF",
-              "%", "%4", "%zz", "+", "a", "/", "é", " ", "&", "=", ";", "%e2%82%ac"]
+              "%", "%4", "%zz", "+", "a", "/", "é", " ", "&", "=", ";", "%e2%82%ac",
+              # boundary sequences of every UTF-8 length class (first/last valid, first invalid)
+              "%C2%80", "%DF%BF", "%E0%A0%80", "%ED%9F%BF", "%EE%80%80", "%EF%BF%BF", "%F0%90%80%80", "%F3%BF%BF%BF",
+              "%F4%80%80%80", "%F4%8F%BF%BF", "%f4%8f%bf%bf", "%F4%90%80%80", "%ED%A0%80", "%E0%9F%BF", "%F0%8F%BF%BF", "%C1%BF"]
 
 
 def unq_strings(maxlen, tokens=None):
